@@ -48,6 +48,10 @@ func genInjectMode(r *rng, out *bufio.Writer, nprog int, maxK int, irq bool) {
 		safe(r.n(3))
 		emit(0xfb) // EI
 		safe(1 + r.n(4))
+		if r.chance(50) {
+			emit(0xed, 0x57) // LD A,I with interrupts enabled: P/V = IFF2 = 1, whatever arrives at the next boundary
+			safe(r.n(2))
+		}
 		// block copy in a scratch area
 		cnt := uint8(1 + r.n(5))
 		emit(0x21, 0x00, 0x80, 0x11, uint8(r.n(4)), 0x80|uint8(r.n(2))<<4, 0x01, cnt, 0x00)
